@@ -103,8 +103,27 @@ func RunServer(in Sx) (Sx, []string) {
 		}
 	}
 	var panics int32
-	for _, ep := range eps {
+	accessorBad := 0
+	for i, ep := range eps {
+		// the plain accessors of the endpoint (round trips; the hand-off queue has the server's size)
+		ep.SetNodeID(fatchoy.NodeID(0x050000 + uint32(i)))
+		ep.SetUserData(i)
+		tc, _ := ep.(*qnet.TcpConn)
+		if ep.NodeID() != fatchoy.NodeID(0x050000+uint32(i)) || ep.UserData() != i || tc == nil || cap(tc.OutboundQueue()) != 64 ||
+			ep.RawConn() == nil || ep.IsRunning() {
+			accessorBad++
+		}
+		if tc != nil {
+			addr := tc.RemoteAddr()
+			tc.SetRemoteAddr(addr)
+			if tc.RemoteAddr() != addr {
+				accessorBad++
+			}
+		}
 		ep.Go(fatchoy.EndpointReadWriter)
+		if !ep.IsRunning() {
+			accessorBad++
+		}
 	}
 	// traffic on all connections at the same time
 	var wg sync.WaitGroup
@@ -156,7 +175,7 @@ func RunServer(in Sx) (Sx, []string) {
 	for _, cl := range clients {
 		total += cl.sentN
 	}
-	badEndpoint, misdelivered, inconcl := 0, 0, 0
+	badEndpoint, misdelivered, inconcl := 0, accessorBad, 0
 	perConn := make([]int, n)
 	timeout := time.After(5 * time.Second)
 collect:
